@@ -31,8 +31,8 @@ def gen_result(r, fail=None):
         spec["env"] = r.sample(ENV_POOL, r.randint(0, len(ENV_POOL)))
     else:
         spec["env"] = None
-    spec["exec_d"] = [[p, r.choice([p, p, "p1b" if p == "p1" else p])] for p in r.sample(["p1", "p2", "p3"], r.choice([0, 0, 1, 2, 3]))]      # "p1b": size and mode of p1, other content
-    spec["sboms"] = [[f, hx(b'{"s":"%s-%d"}' % (f.encode(), r.randrange(1000)))] for f in r.sample(SBOM_FORMATS, r.choice([0, 0, 1, 2, 3]))]
+    spec["exec_d"] = [[p, r.choice([p, p, "p1b" if p == "p1" else "p2l" if p == "p2" else p])] for p in r.sample(["p1", "p2", "p3"], r.choice([0, 0, 1, 2, 3]))]      # "p1b": size and mode of p1, other content
+    spec["sboms"] = [[f, hx(b'{"s":"%s-%d"}' % (f.encode(), r.randrange(1000))) if r.random() < 0.85 else ""] for f in r.sample(SBOM_FORMATS, r.choice([0, 0, 1, 2, 3]))]      # (zero-byte documents too)
     spec["write_files"] = [[r.choice(["data.txt", "bin/tool", "lib/x.so", "deep/er/f", "include/h.h"]), hx(b"c-%d" % r.randrange(1000))] for _ in range(r.randint(0, 3))]
     spec["delete_files"] = r.sample(["data.txt", "bin/tool", "deep/er/f"], r.choice([0, 0, 1]))
     # links inside the layer: dangling, to a file, to a directory
@@ -234,6 +234,10 @@ def judge(step, rep, pre, post, names, layers, src, sh, case):
         if got_x != want_x:
             sh.violation("%s:execd" % action, "%s: exec.d on disk %r, %s() returned %r (name: mode)" % (what, sorted((k, oct(v[0])) for k, v in got_x.items()), action, sorted((k, oct(v[0])) for k, v in want_x.items())), case)
             return None
+        shared = vp.shared_inodes(os.path.join(layers, step["name"], "exec.d"))
+        if shared:
+            sh.violation("%s:execd:shares-inode" % action, "%s: the installed programs %r are hard links (a later change of the source file would change the layer)" % (what, shared), case)
+            return None
         want_s = {f: bytes.fromhex(h) for f, h in spec["sboms"]}
         if v1["sboms"] != want_s:
             sh.violation("%s:sboms" % action, "%s: SBOM files on disk %r, %s() returned %r" % (what, sorted(v1["sboms"]), action, sorted(want_s)), case)
@@ -309,6 +313,7 @@ def run_history(mon, base, hid, steps, names, sh, snapshots_out=None):
     with open(os.path.join(src, "p1b"), "wb") as f:
         f.write(b"#!/bin/sh\necho pB\n")
     os.chmod(os.path.join(src, "p1b"), 0o755)
+    os.symlink("p2", os.path.join(src, "p2l"))      # a source that is a symbolic link: what is installed is the program, not the link
     case = {"steps": jsonable(steps), "names": names, "_layers": layers, "umask": UMASK}
     try:
         mon.call({"op": "init", "layers_dir": layers, "app_dir": os.path.join(root, "app"), "bp_dir": os.path.join(root, "bp")})
@@ -373,6 +378,7 @@ def run_mixed(mon, base, hid, steps, names, sh):
     with open(os.path.join(src, "p1b"), "wb") as f:
         f.write(b"#!/bin/sh\necho pB\n")
     os.chmod(os.path.join(src, "p1b"), 0o755)
+    os.symlink("p2", os.path.join(src, "p2l"))      # a source that is a symbolic link: what is installed is the program, not the link
     case = {"mixed": True, "hid": hid, "names": names, "_layers": layers, "umask": UMASK, "seed_note": "mixed histories are regenerated from VERIF_SEED and their index"}
     alive = set()
     try:
